@@ -282,6 +282,7 @@ class Normaliser:
             for x in ast.walk(t):
                 if isinstance(x, ast.Assign) and len(x.targets) == 1 and isinstance(x.targets[0], ast.Name):
                     cnt.setdefault(x.targets[0].id, []).append(x.value)
+        self.attrgetters = {k: v[0] for k, v in cnt.items() if len(v) == 1 and isinstance(v[0], ast.Call) and ast.unparse(v[0].func).split(".")[-1] == "attrgetter"}
         self.exc_tuples = {k: v[0] for k, v in cnt.items() if len(v) == 1 and isinstance(v[0], ast.Tuple) and v[0].elts
                            and all(isinstance(e, (ast.Name, ast.Attribute)) for e in v[0].elts) and k not in self.mutable_attrs
                            and any(ast.unparse(e).split(".")[-1].endswith(("Error", "Exception", "Interrupt", "Exit", "Terminate", "error", "timeout")) for e in v[0].elts)}
@@ -387,7 +388,21 @@ class Normaliser:
         if isinstance(s0, ast.Call) and isinstance(s0.func, ast.Attribute) and s0.func.attr in ("get", "pop") and isinstance(s0.func.value, ast.Attribute) \
                 and (len(s0.args) == 1 and s0.func.attr == "get" or (len(s0.args) == 2 and isinstance(s0.args[1], ast.Constant) and s0.args[1].value is None)):
             tuple_len = self.tuple_containers.get(s0.func.value.attr)
-        if not _movable(subj) or isinstance(subj, ast.Call):
+        elem_subj: list[ast.expr] | None = None
+        bool_elems: set[str] = set()
+        if isinstance(subj, ast.Tuple) and not any(isinstance(x, ast.Starred) for x in subj.elts):
+            # match (A, B): case (p, q): ...   -- the elements are matched one by one (evaluated once, in order)
+            elem_subj = []
+            for i_, el in enumerate(subj.elts):
+                nm = f"match_h{i_}"
+                pre.append(ast.fix_missing_locations(ast.copy_location(ast.Assign(targets=[ast.Name(id=nm, ctx=ast.Store())], value=el), st)))
+                elem_subj.append(ast.Name(id=nm, ctx=ast.Load()))
+                if isinstance(el, (ast.Compare, ast.BoolOp)) or (isinstance(el, ast.UnaryOp) and isinstance(el.op, ast.Not)) or \
+                        (isinstance(el, ast.Call) and isinstance(el.func, ast.Attribute) and el.func.attr in ("is_set", "isclosed", "startswith", "endswith", "isdigit")) or \
+                        (isinstance(el, ast.Call) and isinstance(el.func, ast.Name) and el.func.id in ("isinstance", "bool", "callable", "hasattr")):
+                    bool_elems.add(nm)
+            subj = ast.Name(id="match_h", ctx=ast.Load())
+        elif not _movable(subj) or isinstance(subj, ast.Call):
             tmp = ast.Name(id="match_h", ctx=ast.Store())
             pre.append(ast.fix_missing_locations(ast.copy_location(ast.Assign(targets=[tmp], value=subj), st)))
             subj = ast.Name(id="match_h", ctx=ast.Load())
@@ -403,6 +418,9 @@ class Normaliser:
             if isinstance(p_, ast.MatchValue):
                 return ast.Compare(left=copy.deepcopy(s_), ops=[ast.Eq()], comparators=[p_.value]), []
             if isinstance(p_, ast.MatchSingleton):
+                if isinstance(s_, ast.Name) and s_.id in bool_elems and isinstance(p_.value, bool):
+                    # a value that is a bool by construction: `is True` is the value itself
+                    return (copy.deepcopy(s_) if p_.value else ast.UnaryOp(op=ast.Not(), operand=copy.deepcopy(s_))), []
                 return ast.Compare(left=copy.deepcopy(s_), ops=[ast.Is()], comparators=[ast.Constant(value=p_.value)]), []
             if isinstance(p_, ast.MatchOr):
                 subs = [pat(x, s_) for x in p_.patterns]
@@ -418,6 +436,20 @@ class Normaliser:
                 return inner[0], inner[1] + ([(p_.name, copy.deepcopy(s_))] if p_.name else [])
             if isinstance(p_, ast.MatchClass) and not p_.patterns and not p_.kwd_patterns:
                 return ast.Call(func=ast.Name(id="isinstance", ctx=ast.Load()), args=[copy.deepcopy(s_), p_.cls], keywords=[]), []
+            if isinstance(p_, ast.MatchSequence) and not any(isinstance(x, ast.MatchStar) for x in p_.patterns) and s_ is subj and elem_subj is not None:
+                if len(p_.patterns) != len(elem_subj):
+                    return ast.Constant(value=False), []
+                tests_e: list[ast.expr] = []
+                binds_e = []
+                for x, es in zip(p_.patterns, elem_subj):
+                    r_ = pat(x, es)
+                    if r_ is None:
+                        return None
+                    tests_e.append(r_[0])
+                    binds_e += r_[1]
+                return conj(tests_e), binds_e
+            if elem_subj is not None and s_ is subj and not (isinstance(p_, ast.MatchAs) and p_.pattern is None and p_.name is None):
+                return None   # a tuple subject matched by something else than sequences / the wildcard: left alone
             if isinstance(p_, ast.MatchSequence) and not any(isinstance(x, ast.MatchStar) for x in p_.patterns):
                 if s_ is subj and tuple_len is not None and tuple_len == len(p_.patterns):
                     # the subject is an entry of a table that only ever holds tuples of this length (or the None default of
@@ -458,6 +490,8 @@ class Normaliser:
                 return []
             test, bind_stmts, guard, body = cases[0]
             rest = cases[1:]
+            if isinstance(test, ast.Constant) and test.value is False:
+                return build(rest)
             if guard is None or not bind_stmts:
                 cond = conj([test] + ([guard] if guard is not None else []))
                 if isinstance(cond, ast.Constant) and cond.value is True:
@@ -1060,6 +1094,26 @@ class _Expr(ast.NodeTransformer):
                 acc = ast.BinOp(left=acc, op=ast.Add(), right=x)
             self.n.hit("join->concat")
             return ast.fix_missing_locations(ast.copy_location(acc, node))
+        # map(attrgetter("a.b"), X) -> (e.a.b for e in X);  filter(None, G) -> (e for e in G if e);  set(<genexp>) -> {..}
+        if isinstance(f, ast.Name) and f.id == "map" and len(node.args) == 2 and isinstance(node.args[0], ast.Name) and node.args[0].id in self.n.attrgetters:
+            node.args[0] = copy.deepcopy(self.n.attrgetters[node.args[0].id])   # a module constant `g = attrgetter("a.b")`
+        if isinstance(f, ast.Name) and f.id == "map" and len(node.args) == 2 and not node.keywords and isinstance(node.args[0], ast.Call) \
+                and ast.unparse(node.args[0].func).split(".")[-1] == "attrgetter" and len(node.args[0].args) == 1 and isinstance(node.args[0].args[0], ast.Constant) \
+                and isinstance(node.args[0].args[0].value, str) and all(p_.isidentifier() for p_ in node.args[0].args[0].value.split(".")):
+            elt: ast.expr = ast.Name(id="e_h", ctx=ast.Load())
+            for part in node.args[0].args[0].value.split("."):
+                elt = ast.Attribute(value=elt, attr=part, ctx=ast.Load())
+            self.n.hit("map(attrgetter)->genexp")
+            return ast.fix_missing_locations(ast.copy_location(ast.GeneratorExp(elt=elt, generators=[ast.comprehension(target=ast.Name(id="e_h", ctx=ast.Store()), iter=node.args[1], ifs=[], is_async=0)]), node))
+        if isinstance(f, ast.Name) and f.id == "filter" and len(node.args) == 2 and not node.keywords and isinstance(node.args[0], ast.Constant) and node.args[0].value is None \
+                and isinstance(node.args[1], ast.GeneratorExp) and len(node.args[1].generators) == 1 and _movable(node.args[1].elt):
+            g0 = node.args[1].generators[0]
+            self.n.hit("filter(None)->genexp")
+            return ast.fix_missing_locations(ast.copy_location(ast.GeneratorExp(elt=node.args[1].elt, generators=[ast.comprehension(target=g0.target, iter=g0.iter, ifs=list(g0.ifs) + [copy.deepcopy(node.args[1].elt)], is_async=0)]), node))
+        if isinstance(f, ast.Name) and f.id in ("set", "list") and len(node.args) == 1 and not node.keywords and isinstance(node.args[0], ast.GeneratorExp):
+            self.n.hit("set(genexp)->comprehension")
+            cls_ = ast.SetComp if f.id == "set" else ast.ListComp
+            return ast.fix_missing_locations(ast.copy_location(cls_(elt=node.args[0].elt, generators=node.args[0].generators), node))
         # f(*(a, b))  ==>  f(a, b)
         if any(isinstance(a, ast.Starred) and isinstance(a.value, (ast.Tuple, ast.List)) and not any(isinstance(x, ast.Starred) for x in a.value.elts) for a in node.args):
             na: list[ast.expr] = []
